@@ -28,7 +28,7 @@ import sys
 
 from .. import families as F
 from ..pipeline import run_family, workdir
-from ..tla import run_tlc
+from ..tla import run_tlc, lit, TLASet
 
 URI = {"TAL": "http://xml.zope.org/namespaces/tal", "METAL": "http://xml.zope.org/namespaces/metal",
        "I18N": "http://xml.zope.org/namespaces/i18n", "META": "http://xml.zope.org/namespaces/meta",
@@ -46,7 +46,8 @@ def attr_text(a, ns, n):
     else:
         # (an ordinary data-<prefix>-<name> attribute is spelled like a statement: the same attribute name means a statement
         # where the prefix is bound to a template namespace and nothing where it is not)
-        name, val = ("class" if a["f"] == "bare" else ("define" if a["f"] == "data" else "bar")), "v%d" % n
+        # ... and so is a prefixed attribute: p:define="z 1" is the same tag text under a template binding and a foreign one
+        name, val = ("class", "v%d" % n) if a["f"] == "bare" else (("define", "v%d" % n) if a["f"] == "data" else ("define", "z 1"))
     if a["f"] == "pre":
         return '%s:%s="%s"' % (a["p"], name, val)
     if a["f"] == "bare":
@@ -119,7 +120,7 @@ SimSpec == Init /\\ [][RndOpen \\/ AddClose \\/ Finish]_vars
 RndOpen2 ==
   /\\ ~fin /\\ Len(doc) < MaxItems /\\ depth < MaxDepth
   /\\ \\E q \\in {Pick({"t", "foo"})} :
-     \\E ds \\in {IF Pick(1..4) = 1 THEN {} ELSE {[p |-> q, u |-> Pick({"TAL", "TAL", "FOO", "XHTML", "METAL"})]}},
+     \\E ds \\in {IF Pick(1..4) = 1 \\/ (depth > 0 /\\ Pick(1..3) # 1) THEN {} ELSE {[p |-> q, u |-> Pick({"TAL", "TAL", "FOO", "XHTML", "METAL"})]}},
          a1 \\in {IF Pick(1..3) = 1 THEN [f |-> "pre", p |-> q] ELSE [f |-> "data", p |-> q]},
          a2 \\in {Pick(Attr \\cup {[f |-> "none"]})}, sc \\in {Pick(BOOLEAN)}, un \\in {Pick({FALSE, FALSE, TRUE})}, ep \\in {Pick({"", "", q})},
          dfirst \\in {Pick(BOOLEAN)} :
@@ -128,9 +129,40 @@ RndOpen2 ==
         /\\ depth' = IF sc \\/ (un /\\ depth > 0) THEN depth ELSE depth + 1
   /\\ UNCHANGED fin
 SimSpec2 == Init /\\ [][RndOpen2 \\/ AddClose \\/ Finish]_vars
+\\* documents built by the harness (same tag text under two bindings of its prefix): evaluated, not generated
+GivenDocs == %(given)s
+GivenInit == \\E k \\in 1..Len(GivenDocs) : doc = GivenDocs[k] /\\ depth = 0 /\\ fin = TRUE
+GivenSpec == GivenInit /\\ [][FALSE]_vars
 Emit == (fin /\\ WellBound) => PrintT(ToJson([doc |-> doc, info |-> [n \\in 1..Len(doc) |-> Info(n)]]))
 ====
 """
+
+
+def given_docs():
+    """one tag text (same element, same prefixed / data- attribute) under two bindings of its prefix, the bindings made by
+    sibling wrappers or by nested ones"""
+    import itertools
+    docs = []
+    for q in ("t", "foo"):
+        for form in ("pre", "data"):
+            for u1, u2 in itertools.permutations(["TAL", "FOO", "XHTML", "METAL"], 2):
+                a = {"f": form, "p": q}
+                child = {"k": "open", "ds": TLASet([]), "as": [a], "ep": "", "dfirst": True, "sc": True, "un": False}
+
+                def wrap(u):
+                    return {"k": "open", "ds": TLASet([FrozenDict({"p": q, "u": u})]), "as": [], "ep": "", "dfirst": True, "sc": False, "un": False}
+                close = {"k": "close"}
+                docs.append([wrap(u1), child, close, wrap(u2), child, close])
+                docs.append([wrap(u1), child, wrap(u2), child, close, child, close])
+    return docs
+
+
+class FrozenDict(dict):
+    def __hash__(self):
+        return hash(tuple(sorted(self.items())))
+
+    def __lt__(self, other):
+        return sorted(self.items()) < sorted(other.items())
 
 
 def _chunk(recs, data_opt):
@@ -156,15 +188,17 @@ def _chunk(recs, data_opt):
 
 
 def ns_part(ctx, quick):
-    for data_opt, spec_name in ((False, "SimSpec"), (True, "SimSpec"), (True, "SimSpec2"), (False, "SimSpec2")) if quick else ((False, "Spec"), (True, "Spec"),
-                                                                                                                  (True, "SimSpec2")):
+    for data_opt, spec_name in ((False, "SimSpec"), (True, "SimSpec"), (True, "SimSpec2"), (False, "SimSpec2"), (True, "GivenSpec"),
+                                (False, "GivenSpec")) if quick else ((False, "Spec"), (True, "Spec"), (True, "SimSpec2"), (True, "GivenSpec"), (False, "GivenSpec")):
         wd = workdir("ns")
         try:
-            open(os.path.join(wd, "MCNs.tla"), "w").write(MC)
+            open(os.path.join(wd, "MCNs.tla"), "w").write(MC % dict(given=lit(given_docs())))
             open(os.path.join(wd, "MCNs.cfg"), "w").write(
                 "SPECIFICATION %s\nCONSTANTS\n MaxItems = %d\n MaxDepth = 2\n DataOption = %s\nINVARIANT NoLeak\nINVARIANT ForeignPreserved\nINVARIANT Emit\n"
                 % (spec_name, 5 if spec_name != "Spec" else 4, "TRUE" if data_opt else "FALSE"))
-            if spec_name != "Spec":
+            if spec_name == "GivenSpec":
+                r = run_tlc("MCNs", "MCNs.cfg", wd, workers=1, timeout=600)
+            elif spec_name != "Spec":
                 r = run_tlc("MCNs", "MCNs.cfg", wd, workers=1, timeout=1800, simulate="num=%d" % (40000 if spec_name == "SimSpec" else 12000),
                             depth=10, seed=ctx.seed, java_opts=["-Xmx6g"])
             else:
@@ -198,9 +232,39 @@ def ns_part(ctx, quick):
         ctx.parts.append(dict(tag="NsSpelling data=%s" % data_opt, states=r.states, docs=len(recs), wall_tlc=r.wall))
 
 
+def option_per_template(ctx):
+    """the data- spelling is an option of the template that was given it -- and of what THAT template loads: file templates
+    with and without the option in one directory, in both orders, each loading the same file through load:"""
+    import tempfile
+    sys.path.insert(0, REPO_SRC)
+    from chameleon import PageTemplateFile
+    d = tempfile.mkdtemp(prefix="c18o_")
+    try:
+        open(os.path.join(d, "part.pt"), "w").write('<div data-metal-define-macro="m" data-x="1"><i data-tal-content="x">d</i></div>')
+        for nm in ("a.pt", "b.pt"):
+            open(os.path.join(d, nm), "w").write('<r><u tal:define="t load: part.pt" metal:use-macro="t" /><s data-tal-replace="x">r</s></r>')
+        want = {True: '<r><div data-x="1"><i>X</i></div>X</r>',
+                False: '<r><div data-metal-define-macro="m" data-x="1"><i data-tal-content="x">d</i></div><s data-tal-replace="x">r</s></r>'}
+        for order in ((False, True), (True, False), (False, True, False), (True, True, False)):
+            ts = [PageTemplateFile(os.path.join(d, "a.pt" if k % 2 == 0 else "b.pt"), enable_data_attributes=o) for k, o in enumerate(order)]
+            for t, o in zip(ts, order):
+                ctx.replays += 1
+                try:
+                    got = t(x="X")
+                except Exception as e:   # noqa
+                    got = "EXC %s: %s" % (type(e).__name__, str(e).splitlines()[:1])
+                if got != want[o]:
+                    ctx.violation("file templates of one directory constructed with enable_data_attributes=%s: the one with %s renders %r, "
+                                  "expected %r" % (list(order), o, got, want[o]), dict(kind="ns-option-per-template"))
+                    return
+    finally:
+        shutil.rmtree(d, ignore_errors=True)
+
+
 def run(ctx):
     rnd = random.Random(ctx.seed)
     quick = ctx.tier == "quick"
+    option_per_template(ctx)
     ns_part(ctx, quick)
     dev = ctx.known_devs()
     progs = F.c01_f1(ctx.tier)
